@@ -27,7 +27,7 @@ DISCARD_HEAVY_OK = False
 
 
 def plan(tier, seed):
-    n = 3000 if tier == "quick" else 100000
+    n = 8000 if tier == "quick" else 500000
     return [{"kind": "random", "start": p * (n // NSHARDS), "count": n // NSHARDS} for p in range(NSHARDS)]
 
 
